@@ -347,7 +347,7 @@ func runScript(r *vrng, es int, nops int, flavour string, fixed []vop) {
 				default:
 					op.A, op.B = -2, -3
 				}
-			case (flavour == "thresh" && q < 70) || q < 14:
+			case es <= 8 && ((flavour == "thresh" && q < 70) || q < 14):
 				op.B = r.pick(bigCaps)
 				op.A = []int{op.B, op.B - 1, op.B / 2, 0}[r.n(4)]
 			default:
@@ -399,8 +399,8 @@ func runScript(r *vrng, es int, nops int, flavour string, fixed []vop) {
 				}
 				t = r.n(nvars)
 			}
-			if st.v[s].len+st.v[t].len > 2000 {
-				continue // repeated self-appends double the length: keep the scripts small
+			if l := st.v[s].len + st.v[t].len; l > 2000 || l*es > 4000 {
+				continue // repeated self-appends double the length: keep the blocks small
 			}
 			op = vop{K: "apps", D: d, S: s, T: t}
 		case p < 78:
@@ -556,9 +556,12 @@ func runScript(r *vrng, es int, nops int, flavour string, fixed []vop) {
 				feat["append-nonempty"] = true
 			}
 			res := o.sl
-			if es == 0 && n > 0 && res == src {
-				// recorded finding F2: the argument comes back unchanged
+			if es == 0 && n > 0 {
 				feat["zero-size-append"] = true
+			}
+			if es == 0 && n > 0 && res == src {
+				// finding F2 (repaired by fix 01): the argument comes back unchanged
+				feat["zero-size-append-unchanged"] = true
 				viol("append-zero-size-elem-unchanged", fmt.Sprintf("append of %d zero-size elements to len %d returned len %d", n, src.len, res.len))
 				m.resync(op.D, res.len, res.cap)
 				break
@@ -684,7 +687,7 @@ func runScript(r *vrng, es int, nops int, flavour string, fixed []vop) {
 		rec.Heap = append(rec.Heap, ints(b.Buf[:b.Size]))
 	}
 	fs := []string{}
-	for _, k := range []string{"append-in-place", "append-grow", "append-grow-over-threshold", "memcpy-overlap", "copy-overlap", "zero-size-append", "panic"} {
+	for _, k := range []string{"append-in-place", "append-grow", "append-grow-over-threshold", "memcpy-overlap", "copy-overlap", "zero-size-append", "zero-size-append-unchanged", "panic"} {
 		if feat[k] {
 			fs = append(fs, k)
 		}
@@ -780,8 +783,9 @@ func TestVerif(t *testing.T) {
 	venc = json.NewEncoder(f)
 	r := &vrng{s: seed*7919 + 11}
 	sizes := []int{0, 1, 2, 3, 8, 24}
-	// the witnesses of the Coq theorems append_zero_size_refuted and
-	// append_memcpy_contract_refuted, replayed on the real code
+	// the witnesses of the Coq theorems append_zero_size_unfixed_refuted and
+	// append_memcpy_contract_unfixed_refuted (the code before the two repairs),
+	// replayed on the real code: they must not fail any more
 	runScript(r, 0, 0, "witness", []vop{{K: "appv", D: 0, S: 0, A: 1, Data: []int{}}})
 	runScript(r, 1, 0, "witness", []vop{{K: "make", D: 0, A: 3, B: 8}, {K: "set", S: 0, A: 0, Data: []int{1}}, {K: "set", S: 0, A: 1, Data: []int{2}},
 		{K: "set", S: 0, A: 2, Data: []int{3}}, {K: "res", D: 1, S: 0, A: 0, B: 2, C: 8}, {K: "res", D: 2, S: 0, A: 1, B: 3, C: 8}, {K: "apps", D: 3, S: 1, T: 2}})
